@@ -218,10 +218,14 @@ def run(ctx):
         WT = weight_types(F)
         is_wt = lambda c: len(c.args) >= 4 and op_local(c.args[3]) is not None and b.local_ty(op_local(c.args[3])) in WT
         fm = [c for c in b.calls() if any(sb.crate == b.crate for sb in local_callee_bodies(F, c)) and is_wt(c)]
-        ctx.check(len(fm) == 1, "R12.2", key + "#single-weighted-format-call", loc(b), "expected one call passing the multiplicity, found %d" % len(fm))
-        for c in fm:
-            o = pr.operand(c.args[3])
-            some = any(x[0] == "agg" and x[2] == WT[b.local_ty(op_local(c.args[3]))] for x in o)
+        carried = weight_carried(F, b, WT) if not fm else []
+        ctx.check(len(fm) + len(carried) == 1, "R12.2", key + "#single-weighted-format-call", loc(b),
+                  "expected one call passing the multiplicity, found %d" % (len(fm) + len(carried)))
+        # (site whose guards are judged, operand the weight comes from, is it Some(..) at the call, blocks that reject by yielding Err)
+        forms = [(c, c.args[3], None, None) for c in fm] + [(cc, payload, some_, res_locals) for cc, payload, some_, res_locals in carried]
+        for c, w_op, some_c, res_locals in forms:
+            o = pr.operand(w_op)
+            some = any(x[0] == "agg" and x[2] == WT[b.local_ty(op_local(c.args[3]))] for x in o) if some_c is None else some_c
             ncalls = [x[1] for x in o if x[0] == "call"]
             okn = False
             for nb in ncalls:
@@ -245,11 +249,11 @@ def run(ctx):
                     rb = any(x[0] == "arg" and x[1] == rate_l for x in bo)
                     if (ra and zero_b and rv["op"] == "Le" and not site_on_true) or (rb and zero_a and rv["op"] == "Ge" and not site_on_true) or \
                        (ra and zero_b and rv["op"] == "Gt" and site_on_true) or (rb and zero_a and rv["op"] == "Lt" and site_on_true):
-                        guards["nonpositive"] = all(_returns_err(b, x) for x in no)
+                        guards["nonpositive"] = all(_returns_err(b, x, res_locals) for x in no)
                 if rv and rv.get("k") == "call" and (rv["term"].get("callee") or {}).get("name") == "is_nan":
                     ro = pr.operand(rv["term"]["args"][0])
                     if any(x[0] == "arg" and x[1] == rate_l for x in ro) and not site_on_true:
-                        guards["nan"] = all(_returns_err(b, x) for x in no)
+                        guards["nan"] = all(_returns_err(b, x, res_locals) for x in no)
             ctx.check(guards["nonpositive"], "R12.2", key + "#rejects-non-positive-rate", loc(b, c.bb), "a rate <= 0 is not rejected with an error before formatting")
             ctx.check(guards["nan"], "R12.2", key + "#rejects-nan-rate", loc(b, c.bb), "a NaN rate is not rejected with an error before formatting")
     # ------------------------------------------------------------------ R12.5 the weight is computed from the rate at f64 precision
@@ -330,11 +334,12 @@ def run(ctx):
 
     n5 = 0
     for b in impls:
-        for c in [c for c in b.calls() if any(sb.crate == b.crate for sb in local_callee_bodies(F, c)) and len(c.args) >= 4 and
-                  op_local(c.args[3]) is not None and b.local_ty(op_local(c.args[3])) in weight_types(F)]:
+        direct5 = [(c, c.args[3]) for c in b.calls() if any(sb.crate == b.crate for sb in local_callee_bodies(F, c)) and len(c.args) >= 4 and
+                   op_local(c.args[3]) is not None and b.local_ty(op_local(c.args[3])) in weight_types(F)]
+        for c, w_op in direct5 or [(x[0], x[1]) for x in weight_carried(F, b, weight_types(F))]:
             stats = {"calls": 0, "ops": 0, "casts": 0}
             visited = set()
-            bad = slice_check(b, [op_local(c.args[3])], 3, visited, stats)
+            bad = slice_check(b, [op_local(w_op)], 3, visited, stats)
             n5 += stats["ops"] + stats["casts"]
             ctx.check(not bad, "R12.5", fnkey(b) + "#weight-computed-in-f64", loc(b, c.bb),
                       "the weight handed to the formatter depends on a precision-losing step: %s. A 32-bit reciprocal has 24 significant bits, so for "
@@ -665,10 +670,56 @@ def run(ctx):
     return EXPL
 
 
-def _returns_err(b, start):
+class _Site:
+    """a block standing in for the weighted call when that call sits in a closure run by Result::and_then"""
+    def __init__(self, bb):
+        self.bb = bb
+
+
+def weight_carried(F, b, WT):
+    """the form `let w = if bad { Err(..) } else { Ok(n) }; w.and_then(|n| format(.., Some(n)))`: the weighted call sits in a closure that
+    std runs on the Ok payload only, and whose result is this body's result. -> [(site = where Ok(n) is built, operand of n, the
+    closure passes Some(its parameter), locals in which an Err is a rejection)]"""
+    out = []
+    pr = Prov(b)
+    for c in b.calls():
+        if c.name != "and_then" or "result::Result" not in (c.def_ or "") or not c.args:
+            continue
+        for cl in closure_args(F, c):
+            cpr = Prov(cl)
+            wcs = [x for x in cl.calls() if any(sb.crate == b.crate for sb in local_callee_bodies(F, x)) and len(x.args) >= 4 and
+                   op_local(x.args[3]) is not None and cl.local_ty(op_local(x.args[3])) in WT]
+            if len(wcs) != 1 or not cl.must_pass([wcs[0].bb]):
+                continue
+            wo = cpr.operand(wcs[0].args[3])
+            some = any(x[0] == "agg" and x[2] == WT[cl.local_ty(op_local(wcs[0].args[3]))] for x in wo) and any(x[0] == "arg" and x[1] == 2 and not x[2] for x in wo)
+            # the result of and_then is what the body returns
+            if c.dest.get("p") or not (c.dest["l"] == 0 or ("call", c.bb) in pr.local(0)):
+                continue
+            # the receiver: a local that is built as Ok(n) / Err(e)
+            from rules.c14 import ref_aliases
+            r = op_local(c.args[0])
+            al = set()
+            work = [r]
+            while work:
+                l = work.pop()
+                if l is None or l in al:
+                    continue
+                al.add(l)
+                for kind, bb_, j, node in b.defs().get(l, []):
+                    if kind == "assign" and node["k"] == "assign" and node["rv"]["k"] == "use":
+                        work.append(op_local(node["rv"]["op"]))
+            for i in b.live_blocks():
+                for st in b.stmts(i):
+                    if st["k"] == "assign" and st["lhs"]["l"] in al and not st["lhs"].get("p") and st["rv"]["k"] == "agg" and st["rv"].get("variant") == "Ok":
+                        out.append((_Site(i), st["rv"]["ops"][0], some, al | {0}))
+    return out
+
+
+def _returns_err(b, start, locals_=None):
     blocks = []
     for i in b.reachable(start):
         for s in b.stmts(i):
-            if s["k"] == "assign" and s["lhs"]["l"] == 0 and not s["lhs"].get("p") and s["rv"]["k"] == "agg" and s["rv"].get("variant") == "Err":
+            if s["k"] == "assign" and s["lhs"]["l"] in (locals_ or (0,)) and not s["lhs"].get("p") and s["rv"]["k"] == "agg" and s["rv"].get("variant") == "Err":
                 blocks.append(i)
     return bool(blocks) and b.must_pass(blocks, start=start)
